@@ -152,10 +152,11 @@ def run_job(job, tree, trace=False):
         if not re.search(mh, names):
             out["reason"] = "expected obligation class missing: %s (dropped contract?)" % mh
             return out
-    if any(r["status"] in ("UNKNOWN", "ERROR") for r in results):
+    fails = [r for r in results if r["status"] == "FAILURE" and "canary-reachable" not in r["desc"]]
+    if not fails and any(r["status"] in ("UNKNOWN", "ERROR") for r in results):
+        # (CBMC leaves properties UNKNOWN next to genuine failures; alone they mean undecided)
         out["reason"] = "obligation with UNKNOWN/ERROR status"
         return out
-    fails = [r for r in results if r["status"] == "FAILURE" and "canary-reachable" not in r["desc"]]
     out["fails"] = fails
     out["status"] = "fail" if fails else "ok"
     if trace:
@@ -229,10 +230,20 @@ def run_check(prop, jobs, tier, replay_fn=None, extra_assumptions=(), level_text
             print("KNOWN-FINDING: property=%s %s [%s: %s]" % (prop, k["what"], j.id, f["name"]))
         os.makedirs(os.path.join(HERE, "evidence", "replay"), exist_ok=True)
         done_jobs = set()
+        vjobs = []
         for (j, o, f) in viol:
-            if j.id in done_jobs:
-                continue
-            done_jobs.add(j.id)
+            if j.id not in done_jobs:
+                done_jobs.add(j.id)
+                vjobs.append((j, o))
+        # counterexample traces (second run of each failing job, in parallel) and native replays
+        # (once per replay family)
+        traces = {}
+        if vjobs:
+            with cf.ThreadPoolExecutor(max_workers=nw) as ex:
+                for (j, o), to in zip(vjobs, ex.map(lambda jo: run_job(jo[0], tree, trace=True), vjobs)):
+                    traces[j.id] = to
+        fam_cache = {}
+        for (j, o) in vjobs:
             rp = os.path.join(HERE, "evidence", "replay", "%s_%s.txt" % (prop, j.id.replace("/", "_")))
             jf = [x[2] for x in viol if x[0].id == j.id]
             found = False
@@ -241,19 +252,19 @@ def run_check(prop, jobs, tier, replay_fn=None, extra_assumptions=(), level_text
                 fh.write("failed obligations:\n")
                 for x in jf:
                     fh.write("  [%s] line %s %s\n" % (x["name"], x["line"], x["desc"]))
+                to = traces.get(j.id, {})
                 if replay_fn and j.replay:
                     try:
-                        # second run with a trace for the counterexample
-                        to = run_job(j, tree, trace=True)
-                        found, text = replay_fn(j, to, tree, seed)
+                        if j.replay not in fam_cache:
+                            fam_cache[j.replay] = replay_fn(j, to, tree, seed)
+                        found, text = fam_cache[j.replay]
                         fh.write("\n--- native replay (%s) ---\n%s\n" % (j.replay, text))
-                        tr = to.get("trace", "")
-                        fh.write("\n--- verifier output (tail) ---\n%s\n" % tr[-20000:])
                     except Exception as e:  # replay problems never hide the violation
                         fh.write("\nreplay error: %r\n" % (e,))
                 else:
                     fh.write("\n(no native replayer registered for this job)\n")
-                    fh.write("\n--- verifier output (tail) ---\n%s\n" % open(o["log"], errors="replace").read()[-20000:])
+                tr = to.get("trace", "") or open(o["log"], errors="replace").read()
+                fh.write("\n--- verifier output (tail) ---\n%s\n" % tr[-20000:])
             print("VIOLATION property=%s replay=%s%s" % (prop, rp, "" if found else " no-failing-input-found"))
             code = 1
         for (j, o) in undec:
